@@ -235,11 +235,11 @@ def run(tier, only=None):
         R.case(r["case"], True, sample=r["case"] if i % 113 == 0 else None, section="table")
         for sig in r["bad"]:
             R.violation(sig, {"case": r["case"]})
-    for r in check_exc(pmap(_random_job, range(48 if tier == "quick" else 480))):
+    for r in check_exc(pmap(_random_job, range(48 if tier == "quick" else 2400))):
         R.case(["random", r["k"]], True, sample=r["case"] if r["k"] % 23 == 0 else None, section="random")
         for sig in r["bad"]:
             R.violation(sig, {"k": r["k"], "case": r["case"]})
-    for r in check_exc(pmap(_bspline_job, range(12 if tier == "quick" else 48))):
+    for r in check_exc(pmap(_bspline_job, range(12 if tier == "quick" else 240))):
         R.case(["bspline", r["k"]], True, sample=r["case"] if r["k"] == 3 else None, section="bspline")
         for sig in r["bad"]:
             R.violation(sig, {"k": r["k"], "case": r["case"]})
